@@ -192,6 +192,11 @@ pub mod iter {
         assert!(w.next().is_some(), "a window never ends");
         let mut step_sig = dasp_signal::rate(n as f64 - 1.0).const_hz(1.0);
         assert!(step_sig.next() == 1.0 / (n as f64 - 1.0));
+        // the step the window itself was built with (hook Phase::verif_step): phases are i/(n-1)
+        use dasp_signal::Step;
+        let mut own = w.phase.verif_step().clone();
+        assert!(own.step() == 1.0 / (n as f64 - 1.0), "a window of n >= 2 frames samples the phases i/(n-1)");
+        kani::cover!(n == 2, "two-frame window");
         kani::cover!(true, "end");
     }
 
